@@ -99,6 +99,9 @@ no_bytes_method:
 		if size < 0 {
 			return nil, ExceptionNewf(ValueError, "negative count")
 		}
+		if size > maxRepeatLength {
+			return nil, ExceptionNewf(MemoryError, "bytes object is too long")
+		}
 		return make(Bytes, size), nil
 	}
 
